@@ -33,9 +33,10 @@ type iDir struct {
 	isoPath string
 	loc     uint32
 	size    uint32
-	recLens []int    // record lengths in order (incl. self and parent)
-	nCE     int      // records that carry a continuation pointer
-	ceLocs  []uint32 // distinct continuation blocks referenced from this directory's records
+	recLens []int      // record lengths in order (incl. self and parent)
+	nCE     int        // records that carry a continuation pointer
+	ceLocs  []uint32   // distinct continuation blocks referenced from this directory's records
+	ceAreas [][2]int64 // byte ranges [lo,hi) (relative to the image) of the continuation areas its records point at
 }
 
 type iTree struct {
@@ -304,6 +305,7 @@ type suspInfo struct {
 	symlink bool
 	cePtr   [2]uint32 // first continuation pointer (block, offset)
 	hasCE   bool
+	ceAreas [][2]int64
 }
 
 // parseSUSP walks the system use area of one record, following CE continuation areas.
@@ -377,6 +379,7 @@ func (w *walker) parseSUSP(su []byte, info *suspInfo, depth int) error {
 			info.ceBlks = map[uint32]bool{}
 		}
 		info.ceBlks[ceLoc] = true
+		info.ceAreas = append(info.ceAreas, [2]int64{off, off + int64(ceLen)})
 		return w.parseSUSP(b, info, depth+1)
 	}
 	return nil
@@ -455,6 +458,7 @@ func (w *walker) walk(p, isoP string, loc, size uint32, depth int) error {
 			for k := range info.ceBlks {
 				ce[k] = true
 			}
+			d.ceAreas = append(d.ceAreas, info.ceAreas...)
 			aliased := false
 			if info.hasCE {
 				d.nCE++
